@@ -530,8 +530,7 @@ def dispenser(incs):
         d["incr"] = _nat_expr(init["inner"][2], {})
         order = _strip(init["inner"][3])
         d["order"] = order.get("value") if order.get("kind") == "IntegerLiteral" else None
-        if d["order"] != "5":
-            raise Untranslatable("worker loop: memory order of the fetch-and-add is not __ATOMIC_SEQ_CST")
+        # any memory order keeps the read-modify-write atomic; the order is recorded, not constrained
         d["mode"] = "atomicFetchAdd"
         pos += 1
     elif _refname(init) == G["next"]:
